@@ -22,6 +22,28 @@ def run(ctx):
     ctx.sample({"history": rings.to_lines(hs[nx])[:30]})
     ctx.log("%d histories (%d exhaustive)" % (len(hs), nx))
     ctx.exec_validate(exe, hs, rings.to_lines, "RingAbsTrace.tla", "RingAbsTrace.cfg", label="c11")
+    # (3) the logging blackbox: numbered records mixing tiny and near-maximum sizes (long function names make the
+    #     reservation matter), a dump + print after every few records: the printed records must be an unbroken run of
+    #     the newest ones ending with the very last one (validated against spec/BbFile.tla, shared with C15)
+    import random
+    from vlib.checks import c15
+    bexe = ctx.cc("h_bbfile.c", "asan")
+    rng = random.Random(ctx.seed * 31 + 5)
+    walks = []
+    for size in ([1024, 4083] if q else [1024, 4083, 9000, 20000]):
+        for _ in range(2 if q else 12):
+            w = ["Init %d" % size]
+            for i in range(120 if q else 300):
+                if rng.random() < 0.3:
+                    w.append("Log %d 2 %d %d %d" % (rng.randint(0, 7), rng.choice([0, 5]), rng.choice([1, 2]), rng.choice([440, 452, 460])))
+                else:
+                    w.append("Log %d %d 0 %d %d" % (rng.randint(0, 7), rng.randint(0, 2), rng.choice([0, 0, 1]), rng.choice([0, 1, 3])))
+                if rng.random() < 0.6:
+                    w += ["Dump", "Print none keep ok same same ok ok 0 x x"]
+            walks.append(w)
+    ctx.sample({"blackbox_walk": walks[0][:24]})
+    ctx.exec_validate(bexe, walks, lambda x: x, "BbFileTrace.tla", c15.trace_cfg(ctx, "BbFileTrace_c11.cfg", c15.skipped_ids()),
+                      label="c11-bb", nshards=4, timeout=1800)
     ctx.cov["exhaustive"] = True
     ctx.assumptions += [
         "one caller (sequential)",
